@@ -57,7 +57,7 @@ def pool(run, n):
     # interpreter-wide settings, observed between the other requests
     for _ in range(12):
         reqs.insert(run.rng.randrange(len(reqs) + 1), "STATE")
-    return reqs
+    return ["STATE"] + reqs + ["STATE"]               # observed before the first and after the last request of every run, too
 
 
 def answers_single(reqs, extra_args=(), hashseed=None):
@@ -81,6 +81,13 @@ def run(run):
     base = answers_single(reqs)
     ref = dict(zip(reqs, base))
     fails, dis = [], []
+    st = [a for r, a in zip(reqs, base) if r == "STATE"]
+    if len(set(st)) > 1:
+        i = next(j for j, (r, a) in enumerate(zip(reqs, base)) if r == "STATE" and a != st[0])
+        prev = max(j for j in range(i) if reqs[j] == "STATE")
+        fails.append({"kind": "history", "stream": "interpreter-wide settings", "text": "STATE", "request": "STATE", "schedule": "one process, in order",
+                      "history": [r[:200] for r in reqs[prev + 1:i]][:40],
+                      "oracle_verdict": "interpreter-wide settings change while the library answers requests: %s -> %s" % (st[0][:120], base[i][:120])})
     runs = 1
 
     def compare(name, rs, ans):
